@@ -51,9 +51,33 @@ def eoi_names(gen_src):
     return names
 
 
-def callbacks_impl(gen_src):
+def real_predicates(path):
+    """The hand-written predicates of a user-side file (the front end's own src/frontend/parser.rs):
+    {name: text of `fn predicate_x(&self) -> bool { .. }`}, cut out by brace matching."""
+    try:
+        text = read(path)
+    except OSError:
+        return {}
+    out = {}
+    for m in re.finditer(r"fn (predicate_\w+)\s*\(\s*&self\s*\)\s*->\s*bool\s*\{", text):
+        depth, i = 0, m.end() - 1
+        while i < len(text):
+            if text[i] == "{":
+                depth += 1
+            elif text[i] == "}":
+                depth -= 1
+                if depth == 0:
+                    break
+            i += 1
+        if depth == 0 and i < len(text):
+            out[m.group(1)] = text[m.start():i + 1]
+    return out
+
+
+def callbacks_impl(gen_src, real=None):
     """Abstract user side: every callback is external_body and obeys only the
-    trait-level frame."""
+    trait-level frame.  `real`: predicates whose real text is verified instead."""
+    real = real or {}
     preds = sorted(set(re.findall(r"fn (predicate_\w+)\(&self\) -> bool;", gen_src)))
     acts = sorted(set(re.findall(r"fn (action_\w+)\(&mut self", gen_src)))
     asserts = sorted(set(re.findall(r"fn (assertion_\w+)\(&self\)", gen_src)))
@@ -67,6 +91,10 @@ def callbacks_impl(gen_src):
            "    fn create_diagnostic(&self, span: Span, message: String) -> Self::Diagnostic { unimplemented!() }"]
     for p in preds:
         if p == "predicate_skip":
+            continue
+        if p in real:
+            out.append("    // real text of the hand-written predicate (src/frontend/parser.rs), verified, not assumed")
+            out.append("    " + real[p])
             continue
         out.append("    #[verifier::external_body] fn %s(&self) -> bool { unimplemented!() }" % p)
     for a in acts:
@@ -136,7 +164,7 @@ def _shard_fns(ix, ed, shard, report):
     report["shard"] = {"index": i, "of": n, "skeleton": skel, "rule_fns": mine}
 
 
-def build(gen_src, sidecars, annotate=None, report=None, user_side=None, shard=None):
+def build(gen_src, sidecars, annotate=None, report=None, user_side=None, shard=None, real_preds=None):
     """gen_src: emitted generated.rs text.  sidecars: list of side-car texts.
     annotate: function(text, report) -> text applied after the skeleton merge
     (layer G annotator).  user_side: (token_enum_text, callbacks_text) to use the
@@ -164,7 +192,9 @@ def build(gen_src, sidecars, annotate=None, report=None, user_side=None, shard=N
         toks = token_names(gen_src)
         token_enum = "#[derive(PartialEq, Eq, Copy, Clone, Structural)]\npub enum Token { %s }\n" % ", ".join(toks)
         token_enum += "pub struct Diagnostic { pub _p: u8 }\n"
-        cbs = callbacks_impl(gen_src)
+        cbs = callbacks_impl(gen_src, real_preds)
+        if real_preds:
+            report["real_user_predicates"] = sorted(p for p in real_preds if ("fn %s(" % p) in gen_src)
     else:
         token_enum, cbs = user_side
     parts = ["use vstd::prelude::*;\nuse vstd::std_specs::iter::IteratorSpec;\nverus! {\nglobal size_of usize == 8;\n",
